@@ -124,7 +124,7 @@ fn c06_render_rights(_c: usize, i: u8) {
     render_and_compare(&bb, stm, rw, rb, None);
 }
 
-// @ob id=O6.2 props=C06 tier=quick kind=bounded weight=light bound="one man (any of 12) on any one square, other 63 squares empty" fn="Display for BoardBuilder,Piece::to_string" desc="placement field with a single symbolic man: ranks are written from 8 down to 1 separated by '/', the man's rank reads <files before as a digit, omitted if 0><piece letter, upper case for white><files after as a digit, omitted if 0>, every other rank reads 8"
+// @ob id=O6.2 props=C06 tier=thorough kind=bounded weight=medium bound="one man (any of 12) on any one square, other 63 squares empty" fn="Display for BoardBuilder,Piece::to_string" desc="placement field with a single symbolic man: ranks are written from 8 down to 1 separated by '/', the man's rank reads <files before as a digit, omitted if 0><piece letter, upper case for white><files after as a digit, omitted if 0>, every other rank reads 8"
 #[kani::proof]
 #[kani::unwind(66)]
 fn c06_render_one_man() {
@@ -166,7 +166,7 @@ fn c06_render_one_man() {
     }
 }
 
-// @ob id=O6.3 props=C06 tier=quick kind=proof weight=light fn="From<&Board> for BoardBuilder,BoardBuilder::setup" desc="structured half of the round trip: for every board satisfying the occupancy invariant, the builder made from it has, square by square, exactly the board's men, its side to move, both castle rights and the en-passant FILE of the board's en-passant square (none if none). With O7.1 (builder -> board reproduces placement/side/rights/en-passant and the from-scratch check, pin and hash data) and O3.4 (== is determined by these) a board equals the board rebuilt from its own builder"
+// @ob id=O6.3 props=C06 tier=thorough kind=proof weight=medium fn="From<&Board> for BoardBuilder,BoardBuilder::setup" desc="structured half of the round trip: for every board satisfying the occupancy invariant, the builder made from it has, square by square, exactly the board's men, its side to move, both castle rights and the en-passant FILE of the board's en-passant square (none if none). With O7.1 (builder -> board reproduces placement/side/rights/en-passant and the from-scratch check, pin and hash data) and O3.4 (== is determined by these) a board equals the board rebuilt from its own builder"
 #[kani::proof]
 #[kani::unwind(66)]
 fn c06_builder_from_board() {
